@@ -135,7 +135,12 @@ template<class Geod, class Line> static void budget_entry(const char* name, cons
     if (f >= 0.3 && Math::AngRound(lat1) == 0 && Math::AngRound(lat2) == 0 && over > 0 && over <= 64 * ulp(180.0) && s == 0) tag = " [class:equatorial-cutoff-roundoff]"; }
   if (tag.empty() && g.maxit2_ < g.maxit1_ + 2 * Math::digits() + 20) { Geod h(g); set_budget(h);
     sink = &second; entry_points<Geod, Line>(name, h, acc, ea, lat1, lon1, lat2, lon2); sink = nullptr; if (second.empty()) tag = " [class:bisection-budget]"; }
-  for (auto& b : first) gv::bad(b.first, b.second + tag);
+  // F64 (open): GeodesicExact::GenInverse reads s12x, which Lengths only sets when DISTANCE is requested, in the short-line guard of the
+  // meridional branch: for meridional points less than 8 eps apart a12 depends on the output mask (uninitialised read)
+  bool exactsolver = std::string(name).compare(0, 5, "exact") == 0; double sfull, a12full = g.Inverse(lat1, lon1, lat2, lon2, sfull);
+  for (auto& b : first) { std::string t = tag;
+    if (t.empty() && exactsolver && a12full < 2.1e-13 && (b.first.compare(0, 16, "inverse-overload") == 0 || b.first.compare(0, 15, "inverseline-arc") == 0)) t = " [class:exact-meridional-mask]";
+    gv::bad(b.first, b.second + t); }
 }
 static Reg r_entry("ginv_entry", [](const Args& a) {
   double ea = unhx(a[0]), f = unhx(a[1]), lat1 = unhx(a[2]), lon1 = unhx(a[3]), lat2 = unhx(a[4]), lon2 = unhx(a[5]);
